@@ -716,7 +716,7 @@ fn render_svg(args: &Args, tree: &usvg::Tree) -> Result<tiny_skia::Pixmap, Strin
 
             // `draw_pixmap` panics when `x + width` or `y + height` overflows i32.
             // A node that far away is not on the page anyway.
-            let (x, y) = (bbox.x() as i32, bbox.y() as i32);
+            let (x, y) = ((bbox.x() * ts.sx) as i32, (bbox.y() * ts.sy) as i32);
             if tiny_skia::IntRect::from_xywh(x, y, pixmap.width(), pixmap.height()).is_some() {
                 page_pixmap.draw_pixmap(
                     x,
